@@ -681,18 +681,29 @@ func c01R1b(c *rt.Ctx) {
 				c.Check(construct, posOf(st), of == field, fmt.Sprintf("wire function %s is replaced by %s: the stage is fed to another component", field, of))
 				continue
 			}
-			if mc, ok := an.Unwrap(st.Val).(*ssa.MakeClosure); ok {
+			var boundTo *ssa.Function
+			if mc, ok := an.Resolve(st.Val).(*ssa.MakeClosure); ok {
 				if bf, _ := mc.Fn.(*ssa.Function); bf != nil && bf.Synthetic != "" && strings.HasSuffix(bf.Name(), "$bound") {
 					if al, ok := fa.X.(*ssa.Alloc); ok && al.Parent() == f && f.Parent() == nil {
 						continue // a fresh wiring table is being filled with method values: bindings are R1's subject, not a wrapper
 					}
-					c.Unsure(construct, posOf(st), "the wire function is re-bound to a method value outside core.Wire")
-					continue
+					// a method value of an in-package wrapper object: the method body is the wrapper (its receiver is
+					// not one of the forwarded parameters)
+					if m := c01BoundMethod(bf); m != nil && m.Pkg == f.Pkg && len(m.Blocks) > 0 && len(m.Params) > 0 {
+						boundTo = m
+					} else {
+						c.Unsure(construct, posOf(st), "the wire function is re-bound to a method value outside core.Wire")
+						continue
+					}
 				}
 			}
 			g := c01FuncValue(st.Val)
 			var calls map[ssa.CallInstruction]string
-			if g == nil {
+			off := 0
+			if boundTo != nil {
+				g, off = boundTo, 1
+				calls = c01FieldCalls(g)
+			} else if g == nil {
 				g, calls = c01BuiltWrapper(st.Val)
 			} else {
 				calls = c01FieldCalls(g)
@@ -715,16 +726,17 @@ func c01R1b(c *rt.Ctx) {
 				}
 				fwd++
 				args := ci.Common().Args
-				if len(args) != len(g.Params) {
+				params := g.Params[off:]
+				if len(args) != len(params) {
 					bad = append(bad, "the wrapper forwards a different number of arguments")
 					continue
 				}
 				for i, a := range args {
-					if c01IsContext(g.Params[i].Type()) {
+					if c01IsContext(params[i].Type()) {
 						continue
 					}
-					if p := c01ParamOf(a); p != g.Params[i] {
-						bad = append(bad, fmt.Sprintf("argument %d forwarded to %s is not the wrapper's own parameter %s", i, field, g.Params[i].Name()))
+					if p := c01ParamOf(a); p != params[i] {
+						bad = append(bad, fmt.Sprintf("argument %d forwarded to %s is not the wrapper's own parameter %s", i, field, params[i].Name()))
 					}
 				}
 			}
@@ -743,6 +755,23 @@ func c01R1b(c *rt.Ctx) {
 			}
 		}
 	}
+}
+
+// c01BoundMethod: the method a synthetic bound-method wrapper (x.m used as a value) calls.
+func c01BoundMethod(bf *ssa.Function) *ssa.Function {
+	var m *ssa.Function
+	for _, in := range an.Instrs(bf, false) {
+		ci, ok := in.(ssa.CallInstruction)
+		if !ok {
+			continue
+		}
+		callee := ci.Common().StaticCallee()
+		if callee == nil || m != nil {
+			return nil
+		}
+		m = callee
+	}
+	return m
 }
 
 // ---------------------------------------------------------------------------------------------
